@@ -24,10 +24,11 @@ Theorem exec_drop_witness :
   option_map (map out_of_row) (exec_rows tie_id dk_script dk_ctx dk_db) = Some [Some ([("a", "b")], 1700000000000000000%Z, (2 # 5)%Q)].
 Proof. repeat split; vm_compute; reflexivity. Qed.
 
-(* the statement planned for sum(rate({a="b"}[5s])) executed over the same streams: the code's reference (two series), not the
-   definition's one series {} *)
+(* the statement planned for sum(rate({a="b"}[5s])) as the reader hands it to the planners (norm_script: `by ()`), executed over
+   the same streams: the definition's ONE series {} with 0.4 (before the repair of agg-without-grouping-keeps-streams the planners
+   got the script as written and the statement answered one series per stream: exec_verdict_def = 1) *)
 Theorem exec_agg_without_grouping_witness :
-  exec_verdict tie_id ng_script dk_ctx dk_db = 0%Z /\ exec_verdict_def tie_id ng_script dk_ctx dk_db = 1%Z /\
-  option_map (map out_of_row) (exec_rows tie_id ng_script dk_ctx dk_db)
-    = Some [Some ([("a", "b"); ("c", "1")], 1700000000000000000%Z, (1 # 5)%Q); Some ([("a", "b"); ("c", "2")], 1700000000000000000%Z, (1 # 5)%Q)].
+  exec_verdict tie_id (norm_script ng_script) dk_ctx dk_db = 0%Z /\ exec_verdict tie_rev (norm_script ng_script) dk_ctx dk_db = 0%Z /\
+  option_map (map out_of_row) (exec_rows tie_id (norm_script ng_script) dk_ctx dk_db) = Some [Some ([], 1700000000000000000%Z, (2 # 5)%Q)] /\
+  option_map (map (fun r => (v_labels r, v_ts r, Qcanon.this (v_val r)))) (ref_rows_def ng_script dk_ctx dk_db) = Some [([], 1700000000000000000%Z, (2 # 5)%Q)].
 Proof. repeat split; vm_compute; reflexivity. Qed.
